@@ -614,7 +614,13 @@ def state(o):
 def _(r):
     C = P("landscapes.exact").PersLandscapeExact
     if r.random() < 0.7:
-        return Case(lambda d, h, c: state(C(dgms=d, hom_deg=h, compute=c)), [g_dgms(r, True), r.choice([0, 1]), r.random() < 0.7])
+        d = g_dgms(r, True)
+        if r.random() < 0.5:                       # nested lists, the last bar infinite (compute_landscape pops it)
+            d = [x[np.argsort(x[:, 0], kind="stable")].tolist() for x in d]
+            for x in d:
+                if r.random() < 0.5:
+                    x.append([x[-1][0] + 1.0, np.inf])
+        return Case(lambda d, h, c: state(C(dgms=d, hom_deg=h, compute=c)), [d, r.choice([0, 1]), r.random() < 0.7])
     cp = mk_exact(r).critical_pairs
     return Case(lambda cp, h: state(C(critical_pairs=cp, hom_deg=h)), [cp, 0])
 
@@ -885,6 +891,8 @@ def _(r):
 @case("visuals.plot_diagrams")
 def _(r):
     d = [g_dgm(r, 2, inf=True), g_dgm(r, 2)] if r.random() < 0.6 else g_dgm(r, 2, inf=True)
+    if r.random() < 0.3:
+        d = [x.astype(np.float32) for x in d] if isinstance(d, list) else d.astype(np.float32)
     kw = {"ax": new_ax(), "lifetime": r.random() < 0.4, "legend": r.random() < 0.5}
     if isinstance(d, list) and r.random() < 0.3:
         kw["plot_only"] = [1]
@@ -964,7 +972,7 @@ def exercise(ctx, name, seed, kind, others=()):
     snaps = [Snap(a) for a in c.args] + [Snap(v) for k, v in sorted(c.kwargs.items())]
     res1 = _call(c, seed)
     ctx.case({"entry": name, "seed": seed}, nontrivial=res1[0] == "ok" and _nontrivial(c), sample_every=211)
-    ctx.count("sweep:" + ("ok" if res1[0] == "ok" else "raises:" + res1[1]))
+    ctx.count("sweep:" + ("ok" if res1[0] == "ok" else "raises:%s:%s" % (res1[1], name)))
     diffs = [d for d in (s.changed("arg%d" % i) for i, s in enumerate(snaps)) if d]
     if kind == "inplace_by_contract":
         ctx.test("inplace_by_contract:converts_its_argument", bool(diffs))
@@ -1035,6 +1043,45 @@ def exercise(ctx, name, seed, kind, others=()):
                 ctx.test("representation_independent", False)
                 problems.append(("representation", "%s: %s-form diagrams give a different result than float arrays" % (name, form)))
     plt.close("all")
+    return problems
+
+
+def fresh_process_result(name, seed):
+    """the result of one case in a fresh interpreter (no call history): ('ok', value) / ('err', kind) / None if not transferable"""
+    import base64, pickle, subprocess, sys
+    code = ("import sys, pickle, base64; sys.path.insert(0, %r); from harness import common; common.import_persim(); "
+            "from harness.props import c19; c = c19._build(%r, %d); r = c19._call(c, %d); "
+            "sys.stdout.write('RESULT:' + base64.b64encode(pickle.dumps(r)).decode())" % (common.VERIF, name, seed, seed))
+    env = dict(os.environ, PERSIM_ROOT=common.REPO, MPLBACKEND="Agg", PYTHONDONTWRITEBYTECODE="1")
+    p = subprocess.run([sys.executable, "-W", "ignore", "-c", code], stdout=subprocess.PIPE, stderr=subprocess.PIPE, env=env, timeout=600)
+    out = p.stdout.decode(errors="replace")
+    if p.returncode != 0 or "RESULT:" not in out:
+        return None
+    try:
+        return pickle.loads(base64.b64decode(out.split("RESULT:")[1]))
+    except Exception:
+        return None
+
+
+def history_check(ctx, name, kind, n):
+    """[T] for entry points the analysis flags for module-level state: compare the result after an arbitrary call history in this
+    process with the result of the same call in a fresh interpreter"""
+    problems = []
+    for _ in range(n):
+        seed = ctx.rng.randint(0, 2 ** 31 - 2)
+        for k in range(1, 4):
+            _call(_build(name, seed + k), seed + k)
+        here = _call(_build(name, seed), seed)
+        fresh = fresh_process_result(name, seed)
+        if fresh is None:
+            ctx.count("history_check:not_transferable:" + name)
+            continue
+        ok = here[0] == fresh[0] and same(here[1], fresh[1])
+        ctx.test("fresh_process_identical", ok)
+        if not ok:
+            problems.append((seed, "%s: the result depends on the calls made before it in the same process (differs from a fresh interpreter)" % name))
+            if len(problems) >= 2:
+                break
     return problems
 
 
@@ -1129,10 +1176,17 @@ def run(ctx):
     broken_text = " ".join(getattr(ctx, "proof_broken", []) or [])
     suspects = sorted(set(flagged) | {r.name for r in results if r.ident in broken_text})
     callers = sorted({r.name for r in results if any(s.split(".")[-1] in (o.get("origin", "")) for s in suspects for o in r.unsafe)} - set(suspects))
-    base, focus = ctx.n(3, 25), ctx.n(40, 400)
+    base, focus = ctx.n(30, 200), ctx.n(150, 1500)
     pool = [n for n in names if n in BUILDERS and not n.startswith("landscapes.visuals") and kinds[n] != "inplace_by_contract"]
     order = [n for n in suspects if n in BUILDERS] + [n for n in names if n in BUILDERS and n not in suspects]
     nviol = 0
+    for name in suspects:                                  # module-level state: compare with a fresh interpreter
+        r0 = [r for r in results if r.name == name][0]
+        if name in BUILDERS and not r0.globals_ok and "pyplot" not in r0.classification.split() and kinds[name] == "obligation":
+            for seed, text in history_check(ctx, name, kinds[name], ctx.n(6, 20)):
+                nviol += 1
+                ctx.violation(text, {"entry": name, "seed": seed, "check": "fresh_process", "others": [(name, seed + k) for k in range(1, 4)]},
+                              found_input=True, obligation_broken=True)
     for name in order:
         reps = focus if name in suspects else base
         if name.startswith("landscapes.visuals.plot_landscape") and name not in suspects:
@@ -1145,7 +1199,11 @@ def run(ctx):
             except HarnessError:
                 raise
             except Exception as e:
-                raise HarnessError("sweep: argument factory of %s failed for seed %d: %s: %s" % (name, seed, type(e).__name__, e))
+                # building the arguments runs persim code too (constructors, distances for the matchings): not a harness failure
+                ctx.count("sweep:case_not_buildable:%s:%s" % (name, type(e).__name__))
+                if os.environ.get("C19_DEBUG"):
+                    raise
+                continue
             for check, text in problems:
                 nviol += 1
                 ctx.violation(text, {"entry": name, "seed": seed, "check": check, "others": others,
@@ -1165,6 +1223,12 @@ def replay(ctx, rep):
         warnings.simplefilter("ignore")
         _, _, results = py2ir.translate_all(common.REPO)
     kinds = {r.name: r.kind for r in results}
+    if c.get("check") == "fresh_process":
+        for o, s in c.get("others", []):
+            _call(_build(o, s), s)
+        here, fresh = _call(_build(c["entry"], c["seed"]), c["seed"]), fresh_process_result(c["entry"], c["seed"])
+        print("  after the recorded history: %r\n  in a fresh interpreter:     %r" % (here, fresh))
+        return fresh is None or (here[0] == fresh[0] and same(here[1], fresh[1]))
     problems = exercise(ctx, c["entry"], c["seed"], kinds.get(c["entry"], "obligation"), [tuple(o) for o in c.get("others", [])])
     for check, text in problems:
         print("  %s: %s" % (check, text))
